@@ -115,6 +115,9 @@ func inspectPost(n ast.Node, visit func(ast.Node)) {
 	})
 }
 
+// bottom marks an infeasible state: a Branch function may return Facts{bottom: true} to prune an edge.
+const bottom = "⊥"
+
 // Dataflow is a forward analysis over a go/cfg graph with per-node transfer.
 type Dataflow struct {
 	G        *cfg.CFG
@@ -129,6 +132,9 @@ type Dataflow struct {
 
 // refine applies Branch to the leaves of cond whose value is implied by cond == truth.
 func (d *Dataflow) refine(cond ast.Expr, truth bool, s Facts) Facts {
+	if s[bottom] {
+		return s
+	}
 	cond = ast.Unparen(cond)
 	switch c := cond.(type) {
 	case *ast.BinaryExpr:
@@ -136,13 +142,14 @@ func (d *Dataflow) refine(cond ast.Expr, truth bool, s Facts) Facts {
 			if truth {
 				return d.refine(c.Y, true, d.refine(c.X, true, s))
 			}
-			return s
+			// false: X is false, or X is true and Y is false
+			return d.joinBottom(d.refine(c.X, false, s), d.refine(c.Y, false, d.refine(c.X, true, s)))
 		}
 		if c.Op == token.LOR {
 			if !truth {
 				return d.refine(c.Y, false, d.refine(c.X, false, s))
 			}
-			return s
+			return d.joinBottom(d.refine(c.X, true, s), d.refine(c.Y, true, d.refine(c.X, false, s)))
 		}
 	case *ast.UnaryExpr:
 		if c.Op == token.NOT {
@@ -150,6 +157,17 @@ func (d *Dataflow) refine(cond ast.Expr, truth bool, s Facts) Facts {
 		}
 	}
 	return d.Branch(cond, truth, s)
+}
+
+// joinBottom joins two states where bottom (infeasible) is the identity.
+func (d *Dataflow) joinBottom(a, b Facts) Facts {
+	if a[bottom] {
+		return b
+	}
+	if b[bottom] {
+		return a
+	}
+	return d.join(a, b)
 }
 
 // edgeState gives the state flowing from b (whose end state is o) to its i-th successor.
@@ -194,6 +212,9 @@ func (d *Dataflow) Run() {
 		for i, s := range b.Succs {
 			old, seen := d.in[s]
 			eo := d.edgeState(b, i, o)
+			if eo[bottom] {
+				continue // infeasible edge
+			}
 			var nw Facts
 			if !seen {
 				nw = eo
@@ -238,6 +259,9 @@ func (d *Dataflow) Exits(info *types.Info, endPos token.Pos) []Exit {
 		s, ok := d.in[b]
 		if !ok || len(b.Succs) != 0 {
 			continue
+		}
+		if b.Kind == cfg.KindSelectAfterCase && len(b.Nodes) == 0 {
+			continue // "no case ready" pseudo-block of a select without default: not an exit
 		}
 		s = d.out(b, s)
 		e := Exit{Block: b, State: s, Kind: "end", Pos: endPos}
@@ -370,4 +394,58 @@ func mustFollow(info *types.Info, body *ast.BlockStmt, isA, isB func(ast.Node) b
 		}
 	}
 	return as, bad
+}
+
+// Paths enumerates the acyclic paths of a (small) CFG from the entry, carrying the state with the
+// same Transfer/Branch functions but without joining: it is path-sensitive. A block is visited at
+// most once per path. It returns the exit of every feasible path (at most max of them; ok=false if
+// the bound was hit).
+func (d *Dataflow) Paths(info *types.Info, endPos token.Pos, max int) (exits []Exit, ok bool) {
+	ok = true
+	if len(d.G.Blocks) == 0 {
+		return nil, true
+	}
+	var walk func(b *cfg.Block, s Facts, onPath map[*cfg.Block]bool)
+	walk = func(b *cfg.Block, s Facts, onPath map[*cfg.Block]bool) {
+		if len(exits) >= max {
+			ok = false
+			return
+		}
+		if onPath[b] {
+			return
+		}
+		onPath[b] = true
+		defer delete(onPath, b)
+		o := d.out(b, s)
+		if len(b.Succs) == 0 {
+			if b.Kind == cfg.KindSelectAfterCase && len(b.Nodes) == 0 {
+				return
+			}
+			e := Exit{Block: b, State: o, Kind: "end", Pos: endPos}
+			if len(b.Nodes) > 0 {
+				last := b.Nodes[len(b.Nodes)-1]
+				e.Last = last
+				e.Pos = last.Pos()
+				switch x := last.(type) {
+				case *ast.ReturnStmt:
+					e.Kind = "return"
+				case *ast.ExprStmt:
+					if c, isCall := x.X.(*ast.CallExpr); isCall && isNoReturnCall(info, c) {
+						e.Kind = "panic"
+					}
+				}
+			}
+			exits = append(exits, e)
+			return
+		}
+		for i, succ := range b.Succs {
+			eo := d.edgeState(b, i, o)
+			if eo[bottom] {
+				continue
+			}
+			walk(succ, eo, onPath)
+		}
+	}
+	walk(d.G.Blocks[0], d.Init, map[*cfg.Block]bool{})
+	return exits, ok
 }
